@@ -35,6 +35,9 @@ def shapes(tier, seed):
         # a presented signature of another length (always wrong) combined with every later defect, provider failures included
         for sv in ('sig-long', 'sig-short', 'sig-empty'):
             out.append(('flags', carrier, 'late', True, sv))
+    # a folded form whose rebuilt URI exceeds what http::Uri accepts (contract model of Builder::build): a malformed request (400)
+    out.append(('toolong', 'header'))
+    out.append(('toolong', 'query'))
     out.append(('flags', 'none', 'all', True))
     out.append(('flags', 'both', 'all', True))
     out.append(('flags', 'header', 'all', False))     # Authorization header without any date header
@@ -52,7 +55,41 @@ def subset(carrier, which):
     return names
 
 
+def run_toolong(prog, shape, tier, seed, res):
+    carrier = shape[1]
+
+    def body(m, ctx):
+        m.x_uri_build_may_fail = True
+        hdrs = [('host', conc_bytes('h')), ('content-type', conc_bytes('application/x-www-form-urlencoded')), ('x-amz-date', conc_bytes(TS))]
+        q = conc_bytes('x=1')
+        if carrier == 'header':
+            hdrs.append(('authorization', conc_bytes('AWS4-HMAC-SHA256 Credential=AKID/' + SCOPE + ', SignedHeaders=host;x-amz-date, Signature=' + '0' * 64)))
+        else:
+            q = q + conc_bytes('&X-Amz-Algorithm=AWS4-HMAC-SHA256&X-Amz-Credential=AKID%2F' + SCOPE.replace('/', '%2F') + '&X-Amz-Date=' + TS +
+                               '&X-Amz-SignedHeaders=host&X-Amz-Signature=' + '0' * 64)
+        rq = Req('POST', b'/', q, hdrs, b'a=1', 'bytes')
+        prov = provider_ok(conc_bytes(bytes(32)))
+        r, _ = run(m, rq, 'us-east-1', 'service', prov, instant(T0), None, options(False, True))
+        return classify(r), prov
+
+    def on_path(pr):
+        res.obligations += 1
+        if pr.kind == 'panic':
+            res.findings.append(Finding('panic: %s' % pr.value.msg, {'shape': repr(shape)}, None, None, repr(shape)))
+            return
+        (kind, msg), prov = pr.value
+        failed = any(e and e[0] == 'uri_build_failed_by_contract' for e in pr.ctx.events)
+        res.witnesses.add('toolong:' + ('build-failed' if failed else 'built'))
+        res.witnesses.add(kind)
+        if failed and (kind != 'MalformedQueryString' or prov.calls):
+            res.findings.append(Finding('a folded form too long for a URI is answered with %s instead of MalformedQueryString (400)' % kind,
+                                        {'toolong': carrier}, None, None, repr(shape)))
+    engine.explore(prog, body, on_path, stats=res.stats)
+
+
 def run_shape(prog, shape, tier, seed, res):
+    if shape[0] == 'toolong':
+        return run_toolong(prog, shape, tier, seed, res)
     _, carrier, which, date_header = shape[:4]
     sig_variant = shape[4] if len(shape) > 4 else None
 
@@ -172,6 +209,22 @@ def native_run(rp, carrier, date_header, on, request_json):
 
 def replay_finding(rp, f):
     inp = f.inp
+    if 'toolong' in inp:
+        carrier = inp['toolong']
+        hdrs = [['host', b'h'.hex()], ['content-type', b'application/x-www-form-urlencoded'.hex()], ['x-amz-date', TS.encode().hex()]]
+        uri = '/?x=1'
+        if carrier == 'header':
+            hdrs.append(['authorization', ('AWS4-HMAC-SHA256 Credential=AKID/' + SCOPE + ', SignedHeaders=host;x-amz-date, Signature=' + '0' * 64).encode().hex()])
+        else:
+            uri += '&X-Amz-Algorithm=AWS4-HMAC-SHA256&X-Amz-Credential=AKID%2F' + SCOPE.replace('/', '%2F') + '&X-Amz-Date=' + TS + \
+                   '&X-Amz-SignedHeaders=host&X-Amz-Signature=' + '0' * 64
+        j = {'method': 'POST', 'uri': uri, 'version': 'HTTP/1.1', 'headers': hdrs, 'body_hex': (b'a=' + b'v' * 70000).hex(), 'body_kind': 'bytes'}
+        nat = native_validate(rp, j, 'us-east-1', 'service', T0, provider={'result': {'signing_key_hex': '00' * 32}},
+                              opts={'s3': False, 'url_encode_form': True})
+        res_ = nat.get('result', {})
+        k = 'ok' if 'ok' in res_ else res_.get('err', {}).get('kind', 'panic')
+        st = res_.get('err', {}).get('status')
+        return k != 'MalformedQueryString' or st != 400, {'native': [k, st], 'body_bytes': 70002}
     if 'request' not in inp:
         return False, None
     nk, nmsg = native_run(rp, inp['carrier'], inp['date_header'], inp['defects'], inp['request'])
